@@ -42,8 +42,7 @@ def zipWith3 {α β γ} (f : α → β → γ) : List α → List β → List γ
 def cellOut (conv : Str → Except Err Str) : ACell → Except Err Str
   | .elem e => elemOut conv (elemDur e) (keptSigs e) e
   | .chord es => do
-    let sigs := es.flatMap keptSigs          -- every chord note carries the union of the chord's signifiers
-    let parts ← (zipWith3 (fun d e => elemOut conv d sigs e) (chordDurs none es) es).mapM id
+    let parts ← (zipWith3 (fun d e => elemOut conv d (keptSigs e) e) (chordDurs none es) es).mapM id
     pure (joinSpace parts)
   | .bar b => pure (barText b)
   | .other _ t => pure t
